@@ -59,6 +59,9 @@ type ShipConnection struct {
 
 	shutdownOnce sync.Once
 
+	// the end of the connection is reported to the info provider only once
+	closedReportOnce sync.Once
+
 	// buffer for SPINE messages that came in before the handshake was completed
 	spineBuffer [][]byte
 
@@ -182,8 +185,7 @@ func (c *ShipConnection) CloseConnection(safe bool, code int, reason string) {
 				<-time.After(500 * time.Millisecond)
 
 				//
-				c.dataWriter.CloseDataConnection(4001, "close")
-				c.infoProvider.HandleConnectionClosed(c, handshakeEnd)
+				c.closeDataConnectionAndReport(4001, "close", handshakeEnd)
 			}()
 			return
 		}
@@ -192,8 +194,16 @@ func (c *ShipConnection) CloseConnection(safe bool, code int, reason string) {
 		if code != 0 {
 			closeCode = code
 		}
-		c.dataWriter.CloseDataConnection(closeCode, reason)
+		c.closeDataConnectionAndReport(closeCode, reason, handshakeEnd)
+	})
+}
 
+// close the data connection and report the end of this connection exactly once,
+// no matter how many of the closing paths (local close, remote announce or confirm) are taken
+func (c *ShipConnection) closeDataConnectionAndReport(code int, reason string, handshakeEnd bool) {
+	c.dataWriter.CloseDataConnection(code, reason)
+
+	c.closedReportOnce.Do(func() {
 		c.infoProvider.HandleConnectionClosed(c, handshakeEnd)
 	})
 }
